@@ -392,7 +392,7 @@ const char * vbi_proxy_msg_debug_get_type_str( VBIPROXY_MSG_TYPE type )
 */
 vbi_bool vbi_proxy_msg_read_idle( VBIPROXY_MSG_STATE * pIO )
 {
-   assert((pIO->readOff == 0) || (pIO->readOff == pIO->readLen));
+   /* See vbi_proxy_msg_is_idle(). */
 
    return (pIO->readOff == 0);
 }
